@@ -9,7 +9,7 @@ import traceback
 
 from hypothesis import strategies as st
 
-from .. import genir, irsem
+from .. import genir, irsem, irsem_selfcheck
 from ..core import Discard, HarnessError, Stats, hyp_search, jhash, load_findings, subseed
 
 PID = "C24"
@@ -704,6 +704,7 @@ def _worker(arg):
 
 
 def run(ctx):
+    ctx.extra["irsem_selfcheck"] = irsem_selfcheck.selfcheck("quick")  # the oracle validates itself first (cached)
     n = ctx.scale(1000, 60000)
     args = []
     for w in range(16):
